@@ -1,6 +1,8 @@
 import Driver.Common
 import Gopki.Model.V1
 import Gopki.Spec.Subject
+import Gopki.Spec.X509
+import Gopki.Generated.Facts
 /-! Driver operations on single functions: `rdn` (C03), `raw` (C06), `validity` (C04). -/
 open Lean
 
@@ -69,6 +71,27 @@ def opRaw : OpFn := fun view inp out => do
          clause := if !specOk then "raw value is not the configured bytes" else if impl != model then "readRawString differs from model" else "",
          nontrivial := model.isSome && n > 0, branch := br, model := match model with | some m => Json.str (bytesToHex m) | none => Json.null,
          feat := Json.mkObj [("long", decide (n > 768))] }
+
+/-- `serial`: the serial numbers `NewCertificateContext` draws under a scripted random source.  Statement (C02): a drawn
+    serial is a non-negative INTEGER of at most 20 content octets in canonical form; (C03) freshly drawn per certificate.
+    Model: the draw is uniform below `2 ^ snMaxBits` (regenerated fact) — with all bits set it is `2 ^ snMaxBits - 1`,
+    with all bits clear it is 0. -/
+def opSerial : OpFn := fun _ inp out => do
+  let script ← inp.getObjValAs? String "script"
+  let serials ← out.getObjValAs? (List String) "serials"
+  let vals : List (Option Int) := serials.map String.toInt?
+  let ok (v : Option Int) : Bool := match v with
+    | some n => n ≥ 0 && (Asn1.intBytes n).length ≤ 20 && X509.intCanonical (Asn1.intBytes n)
+    | none => false
+  let specOk := vals.all ok
+  -- (which words of the source a draw consumes is the standard library's business: the scripts try to reach the extreme draws,
+  --  the correspondence only demands the model's range)
+  let expect : Option Int := if script == "max" then some ((2 : Int) ^ Facts.snMaxBits - 1) else if script == "zeros" then some 0 else none
+  let corr := vals.all (fun v => match v with | some n => 0 ≤ n && n < (2 : Int) ^ Facts.snMaxBits | none => false)
+  pure { corr := corr, spec := specOk,
+         clause := if !specOk then "C02: a drawn serial number is not a non-negative INTEGER of at most 20 content octets"
+                   else if !corr then "a drawn serial number is not the model's draw below 2^snMaxBits for this random source" else "",
+         nontrivial := true, branch := "serial:" ++ script ++ (if expect.isSome && vals.all (· == expect) then ":extreme-reached" else ""), model := toJson (expect.map toString) }
 
 structure ValidityOut where
   err : Bool
